@@ -40,6 +40,36 @@ _STORE_OPS = frozenset(
 )
 
 
+class SimClock:
+    """The wall clock as the system under test would see it (time.time / monotonic / perf_counter and their _ns
+    forms).  It only moves when the simulator moves it: by a little during a call, and by seeded jumps between calls
+    (nothing, a second, a minute, an hour, a day, and once in a while backwards for the non-monotonic clock)."""
+
+    JUMPS = [0.0, 0.0, 0.001, 1.0, 61.0, 3601.0, 86401.0, -30.0]
+
+    def __init__(self, seed_parts):
+        self.rng = rng_for(*seed_parts, "clock")
+        self.wall = 1_760_000_000.0
+        self.mono = 1000.0
+        self.jumps = 0
+
+    def install(self):
+        import time as _t
+
+        _t.time = lambda: self.wall
+        _t.time_ns = lambda: int(self.wall * 1e9)
+        _t.monotonic = lambda: self.mono
+        _t.monotonic_ns = lambda: int(self.mono * 1e9)
+        _t.perf_counter = lambda: self.mono
+        _t.perf_counter_ns = lambda: int(self.mono * 1e9)
+
+    def advance_after(self, k, idx):
+        j = self.rng.choice(self.JUMPS)
+        self.jumps += j != 0.0
+        self.wall += j
+        self.mono += max(j, 0.0) + 1e-4
+
+
 class StepBudget(BaseException):
     """Raised into the system under test when a run exceeds its budget of simulated steps."""
 
@@ -558,6 +588,7 @@ class ScheduleSim:
     def __init__(self, threads: list[list[dict]], policy: Policy, marks, cap: int, scratch: str,
                  granularity: str = "line"):
         self.granularity = granularity
+        self.clock = None
         self._hot_offsets: dict[int, frozenset[int]] = {}
         self.scripts = threads
         self.n = len(threads)
@@ -680,12 +711,26 @@ class ScheduleSim:
         self._event(k, True, "<boundary>", 0)
 
     # -- client threads --
-    def _body(self, k):
+    def _body(self, k, start=0, has_baton=False):
         self.ident2k[_thread.get_ident()] = k
-        self.gates[k].acquire()
+        if not has_baton:
+            self.gates[k].acquire()
+        handed_over = False
         try:
             prev_steps = 0
             for idx, op in enumerate(self.scripts[k]):
+                if idx < start:
+                    continue
+                if op["op"] == "respawn":
+                    # the client's thread ends here and a NEW thread (new thread-locals, possibly the recycled id of
+                    # a thread that has ended) carries on with the rest of its calls; the baton goes with it
+                    self.log.add(k, "respawn", idx)
+                    self.results[k].append({"id": op.get("id"), "key": None, "fault": None, "steps": 0,
+                                            "outcome": ("respawned",)})
+                    t = threading.Thread(target=self._body, args=(k, idx + 1, True), daemon=True)
+                    handed_over = True
+                    t.start()
+                    return
                 try:
                     self.boundary(k)
                 except StepBudget:
@@ -693,11 +738,15 @@ class ScheduleSim:
                 rec = self._run_op(k, idx, op, prev_steps)
                 prev_steps = rec["steps"]
                 self.results[k].append(rec)
+                if self.clock is not None:
+                    self.clock.advance_after(k, idx)
         except BaseException as e:  # noqa: BLE001
             import traceback
 
             self.errors.append(f"thread {k}: {type(e).__name__}: {e}\n{traceback.format_exc()}")
         finally:
+            if handed_over:
+                return  # noqa: B012 - the successor thread does the bookkeeping when the script ends
             self.segments.append([k, -1])
             self.seg_steps = 0
             self.alive.remove(k)
@@ -830,9 +879,13 @@ def run_schedule_task(task: dict) -> dict:
                 policy = make_policy(rng, len(threads), task.get("horizon", 20000), task.get("granularity", "line"))
         sim = ScheduleSim(threads, policy, _MARKS, task.get("cap", 5_000_000), scratch,
                           task.get("granularity", "line"))
-        t0 = time.monotonic()
+        real_monotonic = time.monotonic
+        t0 = real_monotonic()
+        if task.get("sim_clock"):
+            sim.clock = SimClock(task.get("seed_parts") or ["replay"])
+            sim.clock.install()
         finished = sim.run(task.get("wall", 300.0))
-        wall = time.monotonic() - t0
+        wall = real_monotonic() - t0
         # re-dump held trees: no later parse may have altered them
         altered = []
         if finished:
@@ -858,6 +911,7 @@ def run_schedule_task(task: dict) -> dict:
             "wall": wall,
             "over": sim.over,
             "lock_probe": dict(LOCK_PROBE),
+            "clock_jumps": sim.clock.jumps if sim.clock else 0,
         }
     finally:
         shutil.rmtree(scratch, ignore_errors=True)
@@ -904,9 +958,27 @@ def run_history_task(task: dict) -> dict:
         mon.use_tool_id(TOOL, TOOL_NAME)
     mon.register_callback(TOOL, mon.events.LINE, counter)
     base_limit = sys.getrecursionlimit()
+    clock = None
+    if task.get("sim_clock"):
+        clock = SimClock(["hist", task.get("run", 0)])
+        clock.install()
+    if task.get("fd_limit"):
+        # resource exhaustion as a configuration: a process that may only have a few dozen files open notices a
+        # descriptor leaked on some path of parse_file after a few dozen calls instead of after a thousand
+        import resource
+
+        soft, hard = resource.getrlimit(resource.RLIMIT_NOFILE)
+        resource.setrlimit(resource.RLIMIT_NOFILE, (min(task["fd_limit"], hard), hard))
+    gc_every = task.get("gc_every")
     try:
         prev_steps = 0
         for idx, op in enumerate(task["ops"]):
+            if clock is not None and idx:
+                clock.advance_after(0, idx)
+            if gc_every and idx % gc_every == gc_every - 1:
+                import gc
+
+                gc.collect()  # finalisers and weak-reference callbacks run now, between two calls
             fault = op.get("fault")
             rec = {"id": op.get("id"), "key": op_key(op) if "text" in op else None, "fault": fault, "steps": 0}
             log.add(0, "invoke", (idx, op["op"], fault and fault.get("kind")))
